@@ -16,7 +16,7 @@ from fractions import Fraction
 
 import torch
 
-DT = {"float64": torch.float64, "float32": torch.float32, "bfloat16": torch.bfloat16}
+DT = {"float64": torch.float64, "float32": torch.float32, "bfloat16": torch.bfloat16, "float16": torch.float16}
 
 
 def make_params(draw):
@@ -232,6 +232,12 @@ def masked_lists(opt, gi):
             out["mF"] = ids(sl[st.MASKED_FILTERED_GRAD_LIST], sl[st.FILTERED_GRAD_LIST])
         if st.MOMENTUM_LIST in sl:
             out["mM"] = ids(sl[st.MASKED_MOMENTUM_LIST], sl[st.MOMENTUM_LIST])
+        # failure counters (local list and its masked projection), if the implementation keeps them under these names
+        lc = getattr(pl, "_local_failed_amortized_computation_counter_list", None)
+        mc = getattr(pl, "_masked_failed_amortized_computation_counter_list", None)
+        if lc is not None and mc is not None:
+            out["lCnt"] = [int(x) for x in lc]
+            out["mCnt"] = [int(x) for x in mc]
         return out
     except Exception:
         return None
